@@ -1,7 +1,7 @@
 SPECIFICATION Spec
 CONSTANTS
   Part = "glob"
-  Box = "quick"
+  Box = "t5"
   GlobCases <- MCGlobCases
   SyncCases = {}
   ReconCases = {}
